@@ -403,6 +403,16 @@ boost::optional<ndsize_t> getSetIndex(const double position, std::vector<std::st
     if (position < 0 && (match != PositionMatch::Greater && match != PositionMatch::GreaterOrEqual)) {
         return index;
     }
+    if (std::isnan(position)) {
+        return index;
+    }
+    if (position >= 9007199254740992.0) { // 2^53: beyond any index that is exact in double
+        ndsize_t n = labels.size();
+        if (n > 0 && (match == PositionMatch::Less || match == PositionMatch::LessOrEqual)) {
+            index = n - 1;
+        }
+        return index;
+    }
     double tmp;
 
     if (match == PositionMatch::Greater || match == PositionMatch::GreaterOrEqual) {
@@ -798,6 +808,15 @@ DataFrameDimension::DataFrameDimension(const DataFrameDimension &other)
 boost::optional<ndsize_t> getDataFrameIndex(const double position, const ndsize_t tick_count, const PositionMatch match) {
     boost::optional<ndsize_t> index;
     if (position < 0 && (match != PositionMatch::Greater && match != PositionMatch::GreaterOrEqual)) {
+        return index;
+    }
+    if (std::isnan(position)) {
+        return index;
+    }
+    if (position >= 9007199254740992.0) { // 2^53: beyond any index that is exact in double
+        if (tick_count > 0 && (match == PositionMatch::Less || match == PositionMatch::LessOrEqual)) {
+            index = tick_count - 1;
+        }
         return index;
     }
     double tmp;
